@@ -543,6 +543,9 @@ def rw_R1c_format(toks, report):
     return out
 
 
+ASSERT_KW = ["assert"]   # Verus units: `assert(c)`; Kani (engine X) units: `assert!(c)` (set per build)
+
+
 def rw_debug_assert(toks, report):
     """R1: `debug_assert!(c)` / `debug_unreachable!(..)` -> proof obligations."""
     out = []
@@ -559,14 +562,14 @@ def rw_debug_assert(toks, report):
                     if t.text == "debug_assert":
                         # first macro argument only (message dropped)
                         arg = _first_arg(inner)
-                        out += [T(IDENT, "assert"), T(PUNCT, "(")] + arg + [T(PUNCT, ")")]
+                        out += [T(IDENT, ASSERT_KW[0]), T(PUNCT, "(")] + arg + [T(PUNCT, ")")]
                         report.append(("R1", "debug_assert!(c) -> assert(c)"))
                     elif t.text == "debug_assert_eq":
                         a, b = _two_args(inner)
-                        out += [T(IDENT, "assert"), T(PUNCT, "(")] + a + [T(PUNCT, "="), T(PUNCT, "=")] + b + [T(PUNCT, ")")]
+                        out += [T(IDENT, ASSERT_KW[0]), T(PUNCT, "(")] + a + [T(PUNCT, "="), T(PUNCT, "=")] + b + [T(PUNCT, ")")]
                         report.append(("R1", "debug_assert_eq!(a,b) -> assert(a == b)"))
                     else:
-                        out += [T(IDENT, "assert"), T(PUNCT, "("), T(IDENT, "false"), T(PUNCT, ")")]
+                        out += [T(IDENT, ASSERT_KW[0]), T(PUNCT, "("), T(IDENT, "false"), T(PUNCT, ")")]
                         report.append(("R1", "debug_unreachable!(..) -> assert(false)"))
                     i = e + 1
                     continue
@@ -867,6 +870,7 @@ class Extract:
     entry: list = field(default_factory=list)      # proof/ghost text inserted at function entry
     exit_: list = field(default_factory=list)      # proof text appended at the end of a ()-returning body
     indexcalls: list = field(default_factory=list)  # R7: `recv[expr]` (read position) -> `recv.method(expr)`
+    methodrenames: list = field(default_factory=list)  # R7: every `.old(` method call -> `.new(` (a wrapper trait method with the std contract)
     fallback: list = field(default_factory=list)   # text emitted instead when the item no longer exists
     tmpl_line: int = 0
     rename: str = ""
@@ -967,6 +971,9 @@ def parse_template(text):
         mm = re.match(r'^indexcall\s+"((?:[^"\\]|\\.)*)"\s*=>\s*"(\w+)"\s*$', body)
         if mm:
             cur.indexcalls.append((_unesc(mm.group(1)), mm.group(2))); i += 1; continue
+        mm = re.match(r'^methodrename\s+"(\w+)"\s*=>\s*"(\w+)"\s*$', body)
+        if mm:
+            cur.methodrenames.append((mm.group(1), mm.group(2))); i += 1; continue
         mm = re.match(r"^exit\s*:\s?(.*)$", body)
         if mm:
             ins = ["exit", "", 1, mm.group(1)]
@@ -1174,6 +1181,7 @@ def expand_imports(text):
 
 def build(template_text: str, repo: str, unit: str) -> Built:
     template_text = expand_imports(expand_includes(template_text))
+    ASSERT_KW[0] = "assert!" if "#[cfg(kani)]" in template_text else "assert"
     parts = parse_template(template_text)
     mb = re.search(r"^//! broadcast_use:\s*(.+)$", template_text, re.M)
     if mb:
@@ -1497,6 +1505,19 @@ def _build_fn(sf: SourceFile, item: Item, impl, ex: Extract, props, rep, unit, a
         body_toks[len(body_toks) - 1:len(body_toks) - 1] = [T("raw", "\n" + semi + "\n".join(e[3] for e in ex.exit_) + "\n")]
     if ex.entry:
         body_toks[1:1] = [T("raw", "\n" + "\n".join(e[3] for e in ex.entry) + "\n")]
+
+    # 2a. R7 method renaming: `.old(...)` -> `.new(...)` wherever it occurs in the body
+    for (oldm, newm) in ex.methodrenames:
+        n_rw = 0
+        for q in range(1, len(body_toks) - 1):
+            tq = body_toks[q]
+            if tq.kind == IDENT and tq.text == oldm:
+                pv = _prev_sig(body_toks, q); nx = _next_sig(body_toks, q)
+                if pv >= 0 and body_toks[pv].text == "." and nx < len(body_toks) and body_toks[nx].text == "(":
+                    nt = Tok(IDENT, newm, -1, -1)
+                    body_toks[q] = nt; n_rw += 1
+        if n_rw:
+            rep.append(("R7", f"method `.{oldm}()` -> `.{newm}()` x{n_rw}"))
 
     # 2b. R7 index rewriting: `recv[expr]` in read position -> `recv.method(expr)` (Index impls cannot carry a precondition)
     for (recv, method) in ex.indexcalls:
